@@ -299,6 +299,76 @@ func checkDepth(fd *ast.FuncDecl, recv string, r rule, c *tctx, depth int) strin
 	return checkStrict(rest, recv, r)
 }
 
+// innerBad inspects the statements between the Lock and the closing top-level Unlock.  A return is allowed only
+// directly after an Unlock of the same mutex in the same statement list, with results that do not use the receiver
+// (unlock-then-return on an early exit); an Unlock is allowed only directly before such a return; the mutex is not
+// re-taken; no go statement or channel send.  So on every path the mutex is released exactly once, at the exit.
+func innerBad(stmts []ast.Stmt, recv, lock, unlock string) string {
+	okRet := map[*ast.ReturnStmt]bool{}
+	okUnl := map[ast.Stmt]bool{}
+	var lists func(l []ast.Stmt)
+	lists = func(l []ast.Stmt) {
+		for k, st := range l {
+			if es, ok := st.(*ast.ExprStmt); ok && isCall(es.X, recv, lock, unlock) && k+1 < len(l) {
+				if rt, ok := l[k+1].(*ast.ReturnStmt); ok {
+					clean := true
+					for _, e := range rt.Results {
+						if !harmless(e, recv, nil) {
+							clean = false
+						}
+					}
+					if clean {
+						okRet[rt] = true
+						okUnl[st] = true
+					}
+				}
+			}
+		}
+	}
+	bad := ""
+	lists(stmts)
+	for _, st := range stmts {
+		ast.Inspect(st, func(n ast.Node) bool {
+			switch x := n.(type) {
+			case *ast.BlockStmt:
+				lists(x.List)
+			case *ast.CaseClause:
+				lists(x.Body)
+			case *ast.CommClause:
+				lists(x.Body)
+			case *ast.FuncLit:
+				return false
+			}
+			return true
+		})
+	}
+	for _, st := range stmts {
+		ast.Inspect(st, func(n ast.Node) bool {
+			switch x := n.(type) {
+			case *ast.ReturnStmt:
+				if !okRet[x] {
+					bad = "return inside the Lock/Unlock bracket"
+				}
+			case *ast.ExprStmt:
+				if isCall(x.X, recv, lock, unlock) && !okUnl[x] {
+					bad = "the mutex is released inside the bracket without leaving the method"
+				}
+				if isCall(x.X, recv, lock, "Lock") || isCall(x.X, recv, lock, "RLock") {
+					bad = "the mutex is re-taken inside the bracket"
+				}
+			case *ast.GoStmt:
+				bad = "go statement inside the bracket"
+			case *ast.SendStmt:
+				bad = "channel send inside the bracket"
+			case *ast.FuncLit:
+				return false
+			}
+			return true
+		})
+	}
+	return bad
+}
+
 func checkStrict(list []ast.Stmt, recv string, r rule) string {
 	if r.Mode == "handoff" {
 		// leading statements that do not touch the receiver (plain declarations) are allowed before the Lock
@@ -360,22 +430,7 @@ func checkStrict(list []ast.Stmt, recv string, r rule) string {
 		// and nothing but a return of plain values follows it
 		for i := 1; i < len(list); i++ {
 			if es, ok := list[i].(*ast.ExprStmt); ok && isCall(es.X, recv, r.Lock, p[1]) {
-				bad := ""
-				for _, st := range list[1:i] {
-					ast.Inspect(st, func(n ast.Node) bool {
-						switch n.(type) {
-						case *ast.ReturnStmt:
-							bad = "return inside the Lock/Unlock bracket"
-						case *ast.GoStmt:
-							bad = "go statement inside the bracket"
-						case *ast.SendStmt:
-							bad = "channel send inside the bracket"
-						case *ast.FuncLit:
-							return false
-						}
-						return true
-					})
-				}
+				bad := innerBad(list[1:i], recv, r.Lock, p[1])
 				for _, st := range list[i+1:] {
 					if _, ok := st.(*ast.ReturnStmt); !ok {
 						// allow trailing statements that do not touch the receiver
